@@ -33,7 +33,7 @@ theorem until_time_refused (body : σ → Resume → Burst ℚ σ) (fuel n : Nat
 and then only steps: it never touches the state in any other way. -/
 theorem until_time_plants_sentinel (body : σ → Resume → Burst ℚ σ) (fuel n : Nat) (t : ℚ) (s : KState ℚ σ)
     (h : s.now < t) :
-    ∃ s1 : KState ℚ σ, runUntilTime body fuel n t s = runLoop body fuel true n s1 ∧
+    ∃ s1 : KState ℚ σ, runUntilTime body fuel n t s = runLoop body fuel (some s.events.size) n s1 ∧
       s1.agenda = { time := t, prio := URGENT, eid := s.eid, ev := s.events.size } :: s.agenda ∧
       s1.now = s.now ∧ (s1.ev s.events.size).cbs = some [.stop] ∧ (s1.ev s.events.size).out = some (.ok .none) := by
   unfold runUntilTime
@@ -56,35 +56,34 @@ theorem until_event_processed_immediate (body : σ → Resume → Burst ℚ σ) 
 /-- **`run(until=event)` only appends its stop to the event's callbacks and then steps.** -/
 theorem until_event_registers_stop (body : σ → Resume → Burst ℚ σ) (fuel n : Nat) (e : EvId) (s : KState ℚ σ)
     (hp : s.processed e = false) :
-    runUntilEvent body fuel n e s = runLoop body fuel true n (s.addCb e .stop) := by
+    runUntilEvent body fuel n e s = runLoop body fuel (some e) n (s.addCb e .stop) := by
   unfold runUntilEvent; simp [hp]
 
 /-- **The stop is deferred to the end of the callback loop**: a `StopSimulation` raised by the until-callback does not
-cut the loop short — every callback registered on the event, before or after `run()` was entered, is still invoked — and
-`step` then ends with `stopped` carrying the event's value, in the state right after the last callback. -/
-theorem stop_is_deferred (body : σ → Resume → Burst ℚ σ) (fuel : Nat) (e : EvId) (l : LoopSt ℚ σ) (v : Val)
-    (ha : l.abort = none) (hv : (l.s.ev e).out = some (.ok v)) :
-    (runCb body fuel e l .stop).s = l.s ∧ (runCb body fuel e l .stop).abort = none ∧
-    (runCb body fuel e l .stop).stop = some v := by
+cut the loop short — it only records the event's outcome; the state is untouched and the loop goes on. -/
+theorem stop_is_deferred (body : σ → Resume → Burst ℚ σ) (fuel : Nat) (e : EvId) (l : LoopSt ℚ σ) (o : Outcome)
+    (hv : (l.s.ev e).out = some o) :
+    (runCb body fuel e l .stop).s = l.s ∧ (runCb body fuel e l .stop).stop = some o := by
   unfold runCb
-  simp only [ha, Option.isSome_none, Bool.false_eq_true, if_false, hv, and_self]
+  simp only [hv, Option.getD_some, and_self]
 
-theorem stopped_after_whole_loop (l : LoopSt ℚ σ) (e : EvId) (v : Val) (ha : l.abort = none) (hs : l.stop = some v) :
-    closeEvent l e = .stopped v l.s := by
-  unfold closeEvent; simp only [ha, hs]
+theorem stopped_after_whole_loop (l : LoopSt ℚ σ) (e : EvId) (o : Outcome) (hs : l.stop = some o) :
+    closeEvent l e = .stopped o l.s := by
+  unfold closeEvent; simp only [hs]
 
-/-- **A stop never loses a process**: once a stop is recorded, the remaining callbacks of the loop still run
-(`runCb` only skips callbacks after an *exception*, never after a stop). -/
-theorem callbacks_after_stop_still_run (body : σ → Resume → Burst ℚ σ) (fuel : Nat) (e p : EvId) (l : LoopSt ℚ σ)
-    (v : Val) (ha : l.abort = none) (_hs : l.stop = some v) :
-    (runCb body fuel e l (.resume p)).s = resume body p fuel e l.s := by
+/-- **A stop never loses a process**: whether or not a stop has been recorded, every remaining callback of the event
+still runs — `runCb` has no early exit at all (no callback of the model raises out of the loop). -/
+theorem callbacks_after_stop_still_run (body : σ → Resume → Burst ℚ σ) (fuel : Nat) (e p : EvId) (l : LoopSt ℚ σ) :
+    (runCb body fuel e l (.resume p)).s = resume body p fuel e l.s ∧ (runCb body fuel e l (.resume p)).stop = l.stop := by
   unfold runCb
-  simp only [ha, Option.isSome_none, Bool.false_eq_true, if_false]
+  exact ⟨rfl, rfl⟩
 
-/-- **`run()` returns exactly the value carried by the stop** (`until.value`), in the state in which `step` stopped. -/
-theorem run_returns_stop_value (body : σ → Resume → Burst ℚ σ) (fuel n : Nat) (u : Bool) (s s' : KState ℚ σ) (v : Val)
-    (h : step body fuel s = .stopped v s') : runLoop body fuel u (n + 1) s = .returned v s' := by
-  simp only [runLoop, h]
+/-- **`run()` returns exactly the value carried by the stop** (`until.value`), in the state in which `step` stopped;
+for a failed until-event it raises that event's exception, in that same state. -/
+theorem run_returns_stop_value (body : σ → Resume → Burst ℚ σ) (fuel n : Nat) (e : EvId) (s s' : KState ℚ σ) (v w : Val)
+    (h : step body fuel s = .stopped (.ok v) s') (hok : (s'.ev e).out = some (.ok w)) :
+    runLoop body fuel (some e) (n + 1) s = .returned v s' := by
+  simp only [runLoop, h, onStop, Option.bind_some, hok]
 
 /-
 Not proved (stated for the record): `split_transparent` —
